@@ -10,8 +10,11 @@ import (
 	"sync"
 	"testing"
 
+	"golang.org/x/net/idna"
+
 	"github.com/emersion/go-message/textproto"
 	"github.com/emersion/go-smtp"
+	"github.com/foxcpp/maddy/framework/address"
 	"github.com/foxcpp/maddy/framework/buffer"
 	"github.com/foxcpp/maddy/framework/log"
 	"github.com/foxcpp/maddy/framework/module"
@@ -67,33 +70,114 @@ func (c *c09PCol) SetStatus(r string, err error) {
 }
 
 // op: C09 pipe <client>:<eff>+<eff>,...   <failing effective ids e.g. 11,12 or ->   <placement>
-// client address c<i>@example.org (i < 10); effective address e<j>@example.org (j >= 10);
-// "<i>:" alone = not rewritten. An effective id below 10 is the address of CLIENT recipient j
-// (c<j>@example.org): the rewrite result of one client-supplied recipient is itself an address
-// the client supplied (and which may be rewritten further: a->b, b->c).
-func c09PAddr(id string) string {
-	if n, err := strconv.Atoi(id); err == nil && n < 10 {
-		return "c" + id + "@example.org"
+// An address token is <number>[<form>]: number < 10 = c<i>@example.org (client recipients), number >= 10 =
+// e<j>@example.org; "<i>:" alone = not rewritten. An effective token below 10 is the address of
+// CLIENT recipient j: the rewrite result of one client-supplied recipient is itself an address the
+// client supplied (and which may be rewritten further: a->b, b->c).
+// The optional form letter gives another SPELLING of the same mailbox (address.Equal, different string):
+//
+//	(none) c1@example.org   u C1@EXAMPLE.ORG   U C1@example.org   D c1@EXAMPLE.ORG
+//	i c1@пример.example     I C1@пример.example   x c1@xn--e1afmkfd.example   X C1@XN--E1AFMKFD.EXAMPLE
+//	c cé1@example.org (NFC) d ce\u03011@example.org (NFD)   C CÉ1@example.org
+//
+// so "1u:1" is a lower-casing modifier, "1i:1x" a conversion to A-labels, "1d:1c" a normalisation.
+// The same client token may occur several times (the client sends one address twice).
+func c09PTok(tok string) (int, byte) {
+	i := 0
+	for i < len(tok) && tok[i] >= '0' && tok[i] <= '9' {
+		i++
 	}
-	return "e" + id + "@example.org"
+	n, _ := strconv.Atoi(tok[:i])
+	if i < len(tok) {
+		return n, tok[i]
+	}
+	return n, 0
+}
+
+func c09PName(tok string) string {
+	if n, _ := c09PTok(tok); n < 10 {
+		return "c" + tok
+	}
+	return "e" + tok
+}
+
+func c09PAddr(tok string) string {
+	num, form := c09PTok(tok)
+	p := "e"
+	if num < 10 {
+		p = "c"
+	}
+	P := strings.ToUpper(p)
+	n := strconv.Itoa(num)
+	alabel, _ := idna.ToASCII("пример.example")
+	switch form {
+	case 'u':
+		return P + n + "@EXAMPLE.ORG"
+	case 'U':
+		return P + n + "@example.org"
+	case 'D':
+		return p + n + "@EXAMPLE.ORG"
+	case 'i':
+		return p + n + "@пример.example"
+	case 'I':
+		return P + n + "@пример.example"
+	case 'x':
+		return p + n + "@" + alabel
+	case 'X':
+		return P + n + "@" + strings.ToUpper(alabel)
+	case 'c':
+		return p + "\u00e9" + n + "@example.org"
+	case 'd':
+		return p + "e\u0301" + n + "@example.org"
+	case 'C':
+		return P + "\u00c9" + n + "@example.org"
+	}
+	return p + n + "@example.org"
 }
 
 func c09Pipe(out *vh.Out, op string) {
 	toks := strings.Fields(op)
 	rw := map[string][]string{}
-	var clients []string
+	var clients []string    // one entry per AddRcpt call of the client
+	var distinct []string   // the distinct client-supplied addresses, in order of first use
+	occ := map[string]int{} // client-supplied address -> number of AddRcpt calls with it
 	effOf := map[string][]string{}
+	nameOf := map[string]string{}
 	for _, part := range strings.Split(toks[2], ",") {
 		f := strings.Split(part, ":")
-		c := "c" + f[0] + "@example.org"
+		c := c09PAddr(f[0])
+		nameOf[c] = c09PName(f[0])
 		clients = append(clients, c)
+		occ[c]++
+		if occ[c] > 1 {
+			continue // the same address once more (same rewrite result: the modifier is a function)
+		}
+		distinct = append(distinct, c)
 		if f[1] != "" {
 			for _, e := range strings.Split(f[1], "+") {
-				rw[c] = append(rw[c], c09PAddr(e))
+				a := c09PAddr(e)
+				if _, ok := nameOf[a]; !ok {
+					nameOf[a] = c09PName(e)
+				}
+				rw[c] = append(rw[c], a)
+				cn, cf := c09PTok(f[0])
+				en, ef := c09PTok(e)
+				if cn == en && cf != ef {
+					if address.Equal(a, c) && a != c {
+						out.Stat("pipe.rewritten-to-another-spelling." + c09PForm(cf) + ">" + c09PForm(ef))
+					} else {
+						out.Stat("pipe.respelled-token-not-equal")
+					}
+				}
 			}
 			effOf[c] = rw[c]
 		} else {
 			effOf[c] = []string{c}
+		}
+	}
+	for _, c := range distinct {
+		if occ[c] > 1 {
+			out.Stat("pipe.client-address-sent." + strconv.Itoa(occ[c]) + "-times")
 		}
 	}
 	fail := map[string]bool{}
@@ -101,6 +185,12 @@ func c09Pipe(out *vh.Out, op string) {
 		for _, e := range strings.Split(toks[3], ",") {
 			fail[c09PAddr(e)] = true
 		}
+	}
+	name := func(a string) string {
+		if n, ok := nameOf[a]; ok {
+			return n
+		}
+		return "?" + vh.HexRunes(a)
 	}
 	tgt := &c09PTarget{fail: fail}
 	mod := testutils.Modifier{InstName: "verif_rewrite", RcptTo: rw}
@@ -145,12 +235,15 @@ func c09Pipe(out *vh.Out, op string) {
 	hdr.Add("Subject", "x")
 	delivery.(module.PartialDelivery).BodyNonAtomic(ctx, col, hdr, buffer.MemoryBuffer{Slice: []byte("x\r\n")})
 	delivery.Commit(ctx)
-	sort.Strings(col.st)
+	// canonical form: the token names of the addresses (an address the op does not mention: ?hex)
 	var canon []string
 	for _, s := range col.st {
-		canon = append(canon, strings.Replace(strings.Replace(s, "@example.org", "", 1), "=", "=", 1))
+		i := strings.LastIndex(s, "=")
+		canon = append(canon, name(s[:i])+s[i:])
 	}
+	sort.Strings(canon)
 	out.Corr(op, strings.Join(canon, ","))
+	shown := strings.Join(canon, ",")
 
 	isClient := map[string]bool{}
 	for _, c := range clients {
@@ -159,18 +252,26 @@ func c09Pipe(out *vh.Out, op string) {
 	got := map[string]int{}
 	gotVals := map[string][]string{}
 	for _, s := range col.st {
-		kv := strings.SplitN(s, "=", 2)
-		k := kv[0]
+		i := strings.LastIndex(s, "=")
+		k := s[:i]
 		got[k]++
-		gotVals[k] = append(gotVals[k], kv[1])
+		gotVals[k] = append(gotVals[k], s[i+1:])
+	}
+	var gotKeys []string
+	for k := range got {
+		gotKeys = append(gotKeys, k)
+	}
+	sort.Strings(gotKeys)
+	for _, k := range gotKeys {
 		if !isClient[k] {
-			out.Violation("C09/pipeline-status-under-effective-address", op, "result reported under "+k+" which the client never supplied; "+strings.Join(col.st, ","))
+			out.Violation("C09/pipeline-status-under-effective-address", op, "result reported under "+name(k)+" ("+vh.HexRunes(k)+") which the client never supplied (as given); "+shown)
 		}
 	}
-	// each client-supplied recipient gets one result per effective recipient it was expanded to
-	// (collisions of two clients on one effective address are counted per AddRcpt call)
+	// each client-supplied recipient gets one result per effective recipient it was expanded to, per
+	// AddRcpt call with it (collisions of two DIFFERENT client addresses on one effective address are
+	// the known finding KF-C09-1)
 	collide := map[string]int{}
-	for _, c := range clients {
+	for _, c := range distinct {
 		for _, e := range effOf[c] {
 			collide[e]++
 		}
@@ -182,7 +283,7 @@ func c09Pipe(out *vh.Out, op string) {
 		}
 	}
 	chained := false
-	for _, c := range clients {
+	for _, c := range distinct {
 		for _, e := range effOf[c] {
 			if e != c && isClient[e] {
 				chained = true
@@ -192,8 +293,8 @@ func c09Pipe(out *vh.Out, op string) {
 	if chained {
 		out.Stat("pipe.rewritten-to-another-client-address")
 	}
-	for _, c := range clients {
-		want := len(effOf[c])
+	for _, c := range distinct {
+		want := occ[c] * len(effOf[c])
 		if got[c] != want {
 			sig := "C09/pipeline-result-count"
 			for _, e := range effOf[c] {
@@ -201,7 +302,7 @@ func c09Pipe(out *vh.Out, op string) {
 					sig = "C09/pipeline-alias-collision-result-misfiled"
 				}
 			}
-			out.Violation(sig, op, fmt.Sprintf("client recipient %s expanded to %d effective recipients, %d results; %s", c, want, got[c], strings.Join(col.st, ",")))
+			out.Violation(sig, op, fmt.Sprintf("client recipient %s (sent %d times) expanded to %d effective recipients, %d results; %s", name(c), occ[c], len(effOf[c]), got[c], shown))
 			continue
 		}
 		if anyCollision {
@@ -209,21 +310,123 @@ func c09Pipe(out *vh.Out, op string) {
 		}
 		// the results filed under a client-supplied recipient are those of ITS effective recipients
 		var wantVals []string
-		for _, e := range effOf[c] {
-			if fail[e] {
-				wantVals = append(wantVals, "f")
-			} else {
-				wantVals = append(wantVals, "o")
+		for k := 0; k < occ[c]; k++ {
+			for _, e := range effOf[c] {
+				if fail[e] {
+					wantVals = append(wantVals, "f")
+				} else {
+					wantVals = append(wantVals, "o")
+				}
 			}
 		}
 		sort.Strings(wantVals)
 		gv := append([]string{}, gotVals[c]...)
 		sort.Strings(gv)
 		if strings.Join(gv, "") != strings.Join(wantVals, "") {
-			out.Violation("C09/pipeline-result-of-another-recipient", op, fmt.Sprintf("client recipient %s: its effective recipients ended %v, results reported under it %v; %s", c, wantVals, gv, strings.Join(col.st, ",")))
+			out.Violation("C09/pipeline-result-of-another-recipient", op, fmt.Sprintf("client recipient %s: its effective recipients ended %v, results reported under it %v; %s", name(c), wantVals, gv, shown))
 		}
 	}
 	out.Stat("pipe.clients." + strconv.Itoa(len(clients)))
+}
+
+func c09PForm(f byte) string {
+	if f == 0 {
+		return "a"
+	}
+	return string(rune(f))
+}
+
+// c09PGenRespell: rewriting modifiers whose output differs from the client-supplied address only by
+// letter case / IDN form / Unicode normalisation (a lower-casing table, conversion to A-labels or
+// U-labels, NFC), alone or inside a 1-to-N expansion, next to unrewritten recipients, genuine
+// rewrites and further client recipients that are other spellings of the same mailbox (rewritten to
+// something else, so every effective address string stays unique: not the collision of KF-C09-1).
+func c09PGenRespell(r *vh.Rng, out *vh.Out) (parts, effs []string) {
+	fams := []string{"auUD", "ixIX", "cdC"}
+	tok := func(n int, f byte) string {
+		if f == 'a' {
+			return strconv.Itoa(n)
+		}
+		return strconv.Itoa(n) + string(rune(f))
+	}
+	nc := 1 + r.Intn(3)
+	next := 10
+	usedEff := map[string]bool{}
+	usedClient := map[string]bool{}
+	add := func(ctok string, tg []string) {
+		parts = append(parts, ctok+":"+strings.Join(tg, "+"))
+		usedClient[ctok] = true
+		if len(tg) == 0 {
+			tg = []string{ctok}
+		}
+		for _, e := range tg {
+			if usedEff[e] {
+				out.Note("generator: effective address used twice (respell)")
+			}
+			usedEff[e] = true
+			effs = append(effs, e)
+		}
+	}
+	fresh := func() string { next++; return strconv.Itoa(next) }
+	for c := 1; c <= nc; c++ {
+		fam := fams[r.Intn(len(fams))]
+		free := []byte(fam)
+		take := func() byte {
+			k := r.Intn(len(free))
+			f := free[k]
+			free = append(free[:k], free[k+1:]...)
+			return f
+		}
+		ctok := tok(c, take())
+		var tg []string
+		switch {
+		case r.Chance(75):
+			tg = []string{tok(c, take())}
+			if len(free) > 0 && r.Chance(12) {
+				tg = append(tg, tok(c, take())) // two other spellings
+			}
+			if r.Chance(25) {
+				if r.Chance(50) {
+					tg = append(tg, fresh())
+				} else {
+					tg = append([]string{fresh()}, tg...)
+				}
+			}
+		case r.Chance(50):
+			tg = []string{fresh()}
+		}
+		add(ctok, tg)
+		// a further client recipient that is another spelling of the same mailbox, or exactly the
+		// spelling the first one was rewritten to (a chain through spellings)
+		if r.Chance(30) && (len(free) > 0 || len(tg) > 0) {
+			var stok string
+			sameMbox := false
+			if len(tg) > 0 {
+				n0, _ := c09PTok(tg[0])
+				sameMbox = n0 == c
+			}
+			if sameMbox && !usedClient[tg[0]] && r.Chance(50) {
+				stok = tg[0] // it must itself be rewritten: its address is already an effective one
+			} else if len(free) > 0 {
+				stok = tok(c, take())
+			}
+			if stok != "" {
+				var stg []string
+				switch {
+				case len(free) > 0 && r.Chance(50):
+					stg = []string{tok(c, take())}
+				case usedEff[stok] || r.Chance(60):
+					stg = []string{fresh()}
+				}
+				add(stok, stg)
+			}
+		}
+	}
+	for k := len(parts) - 1; k > 0; k-- {
+		j := r.Intn(k + 1)
+		parts[k], parts[j] = parts[j], parts[k]
+	}
+	return parts, effs
 }
 
 func TestVerifC09Pipeline(t *testing.T) {
@@ -244,6 +447,10 @@ func TestVerifC09Pipeline(t *testing.T) {
 		next := 10
 		var parts []string
 		var effs []string
+		respell := r.Chance(30)
+		if respell {
+			nc = 0
+		}
 		for c := 1; c <= nc; c++ {
 			switch r.Intn(4) {
 			case 0:
@@ -259,8 +466,12 @@ func TestVerifC09Pipeline(t *testing.T) {
 				next += 2
 			}
 		}
+		collision := false
 		// occasionally make two clients collide on one effective address
-		if nc >= 2 && r.Chance(10) {
+		if respell {
+			parts, effs = c09PGenRespell(r, out)
+		} else if nc >= 2 && r.Chance(10) {
+			collision = true
 			parts[0] = "1:77"
 			parts[1] = "2:77"
 			effs = append(effs, "77")
@@ -326,6 +537,19 @@ func TestVerifC09Pipeline(t *testing.T) {
 			for k := len(parts) - 1; k > 0; k-- {
 				j := r.Intn(k + 1)
 				parts[k], parts[j] = parts[j], parts[k]
+			}
+		}
+		// the client sends one of its addresses twice (or three times)
+		if !collision && r.Chance(12) {
+			k := r.Intn(len(parts))
+			for n := 1 + r.Intn(2); n > 0; n-- {
+				j := r.Intn(len(parts) + 1)
+				parts = append(parts, "")
+				copy(parts[j+1:], parts[j:])
+				if j <= k {
+					k++
+				}
+				parts[j] = parts[k]
 			}
 		}
 		var fails []string
